@@ -315,3 +315,109 @@ Proof.
   cbn [concat] in HE. rewrite app_nil_r, zlen_app, !zlen_map, !zlen_zrange in HE by lia.
   rewrite cyl_zlen_dedges in HE by lia. rewrite cyl_nverts by lia. rewrite cyl_nfaces in * by lia. lia.
 Qed.
+
+(* ------------------------------------------------------------------ vertex umbrellas *)
+Require Import MV.C14.ProofsFan.
+
+Lemma cyl_links N c v n p :
+  In (n, p) (links (cylinder_faces N c) v) <->
+  (c = true /\ exists i, 0 <= i < N /\ let i' := (i + 1) mod N in
+     ((v = i /\ n = i' /\ p = 2 * N) \/ (v = i' /\ n = 2 * N /\ p = i) \/ (v = 2 * N /\ n = i /\ p = i')) \/
+     ((v = i + N /\ n = 2 * N + 1 /\ p = i' + N) \/ (v = 2 * N + 1 /\ n = i' + N /\ p = i + N) \/ (v = i' + N /\ n = i + N /\ p = 2 * N + 1)))
+  \/ (exists i, 0 <= i < N /\ let i' := (i + 1) mod N in
+     ((v = i /\ n = N + i /\ p = i') \/ (v = N + i /\ n = i' /\ p = i) \/ (v = i' /\ n = i /\ p = N + i)) \/
+     ((v = N + i /\ n = N + i' /\ p = i') \/ (v = N + i' /\ n = i' /\ p = N + i) \/ (v = i' /\ n = N + i /\ p = N + i'))).
+Proof.
+  rewrite links_In. split.
+  - intros [f [Hf H]]. apply cyl_face_In in Hf as [[Hc [i [Hi Hf]]]|[i [Hi Hf]]]; [left; split; auto | right];
+      exists i; (split; [exact Hi|]); cbv zeta; unfold ccap, cside in Hf; cbv zeta in Hf; cbn [In] in Hf;
+      split_or Hf; subst f; [left | right | left | right]; apply tri_corner; exact H.
+  - intros [[Hc [i [Hi H]]]|[i [Hi H]]]; cbv zeta in H; destruct H as [H|H].
+    + exists [i; (i + 1) mod N; 2 * N]. split; [|apply tri_corner; exact H].
+      apply cyl_face_In. left. split; [exact Hc|]. exists i. split; [exact Hi|]. unfold ccap. cbv zeta. left. reflexivity.
+    + exists [i + N; 2 * N + 1; (i + 1) mod N + N]. split; [|apply tri_corner; exact H].
+      apply cyl_face_In. left. split; [exact Hc|]. exists i. split; [exact Hi|]. unfold ccap. cbv zeta. right. left. reflexivity.
+    + exists [i; N + i; (i + 1) mod N]. split; [|apply tri_corner; exact H].
+      apply cyl_face_In. right. exists i. split; [exact Hi|]. unfold cside. cbv zeta. left. reflexivity.
+    + exists [N + i; N + (i + 1) mod N; (i + 1) mod N]. split; [|apply tri_corner; exact H].
+      apply cyl_face_In. right. exists i. split; [exact Hi|]. unfold cside. cbv zeta. right. left. reflexivity.
+Qed.
+
+Lemma pr_cases n i : 0 <= i < n -> (pr n i = i - 1 /\ 0 < i) \/ (pr n i = n - 1 /\ i = 0).
+Proof. unfold pr. destruct (i =? 0) eqn:E; lia. Qed.
+
+(* a witness cell k for a corner: evaluate its wrapped successor, then find the matching pattern *)
+Ltac cyl_wit N k :=
+  exists k; split; [lia|]; cbv zeta;
+  let E := fresh "E" in let L := fresh "L" in
+  destruct (mod_succ_cases k N ltac:(lia)) as [[E L]|[E L]]; rewrite ?E;
+  first [exfalso; lia | pick_disj ltac:(repeat split; lia)].
+Ltac cyl_wits N i0 :=
+  first [cyl_wit N i0 | cyl_wit N (i0 - 1) | cyl_wit N (N - 1) | cyl_wit N (i0 + 1) | cyl_wit N 0].
+
+Definition cyl_ring_bottom (N : Z) (c : bool) (i0 : Z) : list (Z * Z) :=
+  let ni := (i0 + 1) mod N in let pi := pr N i0 in
+  [(pi, N + pi); (N + pi, N + i0); (N + i0, ni)] ++ (if c then [(ni, 2 * N); (2 * N, pi)] else []).
+Definition cyl_ring_top (N : Z) (c : bool) (i0 : Z) : list (Z * Z) :=
+  let ni := (i0 + 1) mod N in let pi := pr N i0 in
+  [(N + ni, ni); (ni, i0); (i0, N + pi)] ++ (if c then [(pi + N, 2 * N + 1); (2 * N + 1, ni + N)] else []).
+
+Lemma cyl_vertex_manifold N c : 3 <= N -> vertex_manifold (cylinder_nverts N c) (cylinder_faces N c).
+Proof.
+  intros HN. rewrite cyl_nverts by lia. intros v Hv.
+  destruct (Z_lt_le_dec v N) as [L1|L1]; [|destruct (Z_lt_le_dec v (2 * N)) as [L2|L2]].
+  - (* bottom rim vertex *)
+    apply (one_fan_intro _ _ (cyl_ring_bottom N c v)); [apply cyl_oriented_manifold; auto | | |];
+      unfold cyl_ring_bottom; cbv zeta;
+      destruct (mod_succ_cases v N ltac:(lia)) as [[Ei Li]|[Ei Li]]; rewrite Ei;
+      destruct (pr_cases N v ltac:(lia)) as [[Pi Qi]|[Pi Qi]]; rewrite Pi; try lia.
+    1-3: destruct c; cbn [app]; repeat constructor; cbn [In]; intros Hin; split_or Hin; pinj Hin; lia.
+    1-3: intros [n p]; rewrite cyl_links; split;
+      [ intros H; destruct c; cbn [app In] in H; split_or H; pinj H; subst n p;
+        first [left; split; [reflexivity|]; cyl_wits N v | right; cyl_wits N v]
+      | intros [[Hc [i [Hi H]]]|[i [Hi H]]]; cbv zeta in H;
+        destruct (mod_succ_cases i N Hi) as [[E L]|[E L]]; rewrite E in H;
+        split_or H; destruct H as [E1 [-> ->]]; try lia; subst; cbn [app In];
+        first [lia | pick_disj ltac:(f_equal; lia)] ].
+    1-3: destruct c; cbn [app chained fst snd]; repeat split; lia.
+  - (* top rim vertex N + i0 *)
+    set (i0 := v - N). assert (Hi0 : 0 <= i0 < N) by (subst i0; lia). replace v with (N + i0) by (subst i0; lia). clearbody i0.
+    apply (one_fan_intro _ _ (cyl_ring_top N c i0)); [apply cyl_oriented_manifold; auto | | |];
+      unfold cyl_ring_top; cbv zeta;
+      destruct (mod_succ_cases i0 N ltac:(lia)) as [[Ei Li]|[Ei Li]]; rewrite Ei;
+      destruct (pr_cases N i0 ltac:(lia)) as [[Pi Qi]|[Pi Qi]]; rewrite Pi; try lia.
+    1-3: destruct c; cbn [app]; repeat constructor; cbn [In]; intros Hin; split_or Hin; pinj Hin; lia.
+    1-3: intros [n p]; rewrite cyl_links; split;
+      [ intros H; destruct c; cbn [app In] in H; split_or H; pinj H; subst n p;
+        first [left; split; [reflexivity|]; cyl_wits N i0 | right; cyl_wits N i0]
+      | intros [[Hc [i [Hi H]]]|[i [Hi H]]]; cbv zeta in H;
+        destruct (mod_succ_cases i N Hi) as [[E L]|[E L]]; rewrite E in H;
+        split_or H; destruct H as [E1 [-> ->]]; try lia; subst; cbn [app In];
+        first [lia | pick_disj ltac:(f_equal; lia)] ].
+    1-3: destruct c; cbn [app chained fst snd]; repeat split; lia.
+  - (* the two cap centres *)
+    destruct c; [|lia]. destruct (Z.eq_dec v (2 * N)) as [->|NE].
+    + apply (one_fan_intro _ _ (map (fun k => (k, (k + 1) mod N)) (zrange N))); [apply cyl_oriented_manifold; auto | | |].
+      * apply NoDup_pairs_fst. cbn [fst]. intros; lia.
+      * intros [n p]. rewrite cyl_links, in_map_iff. split.
+        -- intros [k [E Hk]]. apply In_zrange in Hk. pinj E. left. split; auto. exists k. split; auto. cbv zeta.
+           left. right. right. lia.
+        -- intros [[_ [i [Hi H]]]|[i [Hi H]]]; cbv zeta in H;
+             pose proof (Z.mod_pos_bound (i + 1) N ltac:(lia));
+             split_or H; destruct H as [E1 [-> ->]]; try lia.
+           exists i. split; [reflexivity | apply In_zrange; lia].
+      * apply chained_map_zrange. cbn [fst snd]. intros t Ht. rewrite Z.mod_small by lia. reflexivity.
+    + assert (v = 2 * N + 1) by lia. subst v.
+      apply (one_fan_intro _ _ (map (fun t => ((N - 1 - t + 1) mod N + N, N - 1 - t + N)) (zrange N)));
+        [apply cyl_oriented_manifold; auto | | |].
+      * apply NoDup_map_inj_in; [|apply NoDup_zrange]. intros x y Hx Hy E. apply In_zrange in Hx, Hy. pinj E. lia.
+      * intros [n p]. rewrite cyl_links, in_map_iff. split.
+        -- intros [t [E Ht]]. apply In_zrange in Ht. pinj E. left. split; auto. exists (N - 1 - t). split; [lia|]. cbv zeta.
+           right. right. left. lia.
+        -- intros [[_ [i [Hi H]]]|[i [Hi H]]]; cbv zeta in H;
+             pose proof (Z.mod_pos_bound (i + 1) N ltac:(lia));
+             split_or H; destruct H as [E1 [-> ->]]; try lia.
+           exists (N - 1 - i). split; [|apply In_zrange; lia]. replace (N - 1 - (N - 1 - i)) with i by lia. reflexivity.
+      * apply chained_map_zrange. cbn [fst snd]. intros t Ht.
+        replace (N - 1 - (t + 1) + 1) with (N - 1 - t) by lia. rewrite Z.mod_small by lia. lia.
+Qed.
